@@ -57,7 +57,28 @@ def seeds():
     out.append(("select_case", "program p\n  select case (i)\n  case (1)\n    x = 1\n  case (2:5)\n    x = 2\n  case default\n    x = 3\n  end select\nend program p\n"))
     out.append(("placeholders", "program p\n  x = (a + 1) * f(b, (c)) + 1.0e-3\nend program p\n"))
     out.append(("typed", "module m\n  type, extends(base) :: t\n    procedure(f), pointer, nopass :: p => null()\n  contains\n    procedure :: q => r\n    generic :: operator(+) => q\n    final :: fin\n  end type t\nend module m\n"))
+    out.append(("implicit", "subroutine s\n  implicit real (a-h, o-z), integer (i-n)\n  x = 1\nend subroutine s\n"))
     out.append(("fixed", "      subroutine f(a)\nC     comment\n      integer a\n      a = 1 +\n     & 2\n   10 continue\n      end\n"))
+    # whole programs harvested from the repository's own parser tests (free form only: the mutations are token based)
+    try:
+        from checks.bounded_harvest import harvest_programs
+        from fparser.common.readfortran import FortranStringReader
+        from fparser.two.parser import ParserFactory
+        import logging
+        logging.disable(logging.CRITICAL)
+        k = 0
+        for src in harvest_programs():
+            try:
+                rd = FortranStringReader(src)
+                if not rd.format.is_free or len(src) > 1200:
+                    continue
+                ParserFactory().create(std="f2008")(rd)
+            except BaseException:  # noqa
+                continue
+            out.append(("harvested:%d" % k, src))
+            k += 1
+    except ImportError:
+        pass
     return out
 
 
